@@ -193,7 +193,10 @@ _V_RESET = '{"action_type": "ActionType.ResetGame", "parameters": {"request_traj
 _V_QUIT = '{"action_type": "ActionType.QuitGame", "parameters": {}}'
 _V_JOIN = '{"action_type": "ActionType.JoinGame", "parameters": {"agent_info": {"name": "x", "role": "Attacker"}}}'
 TRAILING = [_V_SCAN + " x", _V_SCAN + _V_SCAN, _V_RESET + " }", _V_RESET + "EOF", _V_QUIT + ",", _V_QUIT + " " + _V_SCAN[:40], _V_JOIN + "]",
-            _V_SCAN + "\n" + _V_RESET]
+            _V_SCAN + "\n" + _V_RESET,
+            # exactly one read buffer (ProtocolConfig.BUFFER_SIZE = 8192 bytes) of text that is not JSON: answered like any other
+            # bad request, and nothing of it may linger and meet the next message of this or of another connection
+            "x" * 8192]
 GARBAGE += TRAILING
 
 
@@ -343,9 +346,118 @@ def directed_config(rng, required, max_steps, goal_at_once=False, defender=False
 def directed(rng, k):
     """Run the k-th directed scenario; returns (Session, cfg, draw)."""
     kinds = ["eof", "readerr", "quit", "undecodable"]
-    variant = (k // 20) % 2
-    k = k % 20
-    if k == 19:
+    variant = (k // 23) % 2
+    k = k % 23
+    if k == 22:
+        # a Defender with a step limit of its own uses it up while the attacker is still playing: its episode ends there, and what it
+        # is told and paid at the end is decided by the attackers' outcome alone (variant 0: nobody succeeds -> Success and the
+        # success reward; variant 1: the attacker succeeds afterwards -> Fail)
+        cfg, draw = directed_config(rng, 2, 3)
+        A = cfg["coordinator"]["agents"]["Attacker"]
+        g0 = copy.deepcopy(nsgenv.EMPTY_PART)
+        g0["known_hosts"] = ["192.168.1.2"]
+        A["goal"] = dict(g0, description="goal", is_any_part_of_goal_random=False)
+        cfg["coordinator"]["agents"]["Defender"]["max_steps"] = 2
+        S = CR.Session(cfg, draw=draw)
+        a, dd = ("10.2.22.1", 1), ("10.2.22.2", 2)
+        S.connect(a); S.connect(dd); S.settle()
+        _join(S, a, "att", "Attacker"); _join(S, dd, "def", "Defender"); S.settle()
+        win, dwin = game_msg("ScanNetwork", source_host=ip("192.168.2.2"), target_network={"ip": "192.168.1.0", "mask": 24})
+        lose, dlose = game_msg("ScanNetwork", source_host=ip("192.168.2.2"), target_network={"ip": "192.168.2.0", "mask": 24})
+        fd, dfd = game_msg("FindData", source_host=ip("192.168.2.2"), target_host=ip("192.168.2.2"))
+        for episode in range(2):
+            S.send(a, lose, dlose); S.settle()
+            S.send(dd, fd, dfd); S.settle()
+            S.send(dd, fd, dfd); S.settle()                              # the defender's own limit: parked until the attacker is done
+            if (variant + episode) % 2 == 0:
+                S.send(a, lose, dlose); S.settle(); S.send(a, lose, dlose); S.settle()
+            else:
+                S.send(a, win, dwin); S.settle()
+            S.send(dd, fd, dfd); S.settle()                              # refused: the same reason and reward
+            _reset(S, a, True); _reset(S, dd, True); S.settle()
+    elif k == 21:
+        # depth of history WITHIN an episode: an attacker without a step limit (trajectories saved, global defender on with the draw
+        # scripted to 0: whatever is checked is detected) plays FindData(X), then 99 actions that cross no threshold (one action of each
+        # checked type in every window of five, never the same parameters twice), then FindData(X) AGAIN: the repeat counts over the
+        # WHOLE episode, so action 101 is detected; the trajectory handed out holds all 101 actions
+        cfg, _ = directed_config(rng, 1, None)
+        cfg["coordinator"]["agents"]["Attacker"].pop("max_steps", None)
+        cfg["env"]["use_global_defender"] = True
+        cfg["env"]["save_trajectories"] = True
+        draw = 0.0
+        S = CR.Session(cfg, draw=draw)
+        a = ("10.2.21.1", 1)
+        S.connect(a); S.settle()
+        _join(S, a, "long", "Attacker"); S.settle()
+        fd, dfd = game_msg("FindData", source_host=ip("192.168.2.2"), target_host=ip("192.168.2.2"))
+        S.send(a, fd, dfd); S.settle()
+        n_mid = 99 if variant == 0 else 103
+        for i in range(n_mid):
+            if S.g._episode_ends.get(a):
+                break
+            # one action of each checked type in every window of five, never the same parameters twice, aimed at addresses that do not
+            # exist (no effect, the view stays small): every ratio is 1/5, every run 1, every repeat count 1 - no threshold is crossed
+            h = "10.9.%d.%d" % (i // 200, i % 200 + 1)
+            c = i % 5
+            if c == 0:
+                t, d = game_msg("ScanNetwork", source_host=ip("192.168.2.2"), target_network={"ip": "10.9.%d.0" % (i % 250), "mask": 24})
+            elif c == 1:
+                t, d = game_msg("FindServices", source_host=ip("192.168.2.2"), target_host=ip(h))
+            elif c == 2:
+                t, d = game_msg("ExploitService", source_host=ip("192.168.2.2"), target_host=ip(h), target_service={"name": "ssh", "type": "passive", "version": "1", "is_local": False})
+            elif c == 3:
+                t, d = game_msg("FindData", source_host=ip("192.168.2.2"), target_host=ip(h))
+            else:
+                t, d = game_msg("ExfiltrateData", source_host=ip("192.168.2.2"), target_host=ip(h), data={"owner": "u", "id": "d%d" % i, "size": 0, "type": ""})
+            S.send(a, t, d); S.settle()
+        S.send(a, fd, dfd); S.settle()                                   # the same FindData again: checked, and (draw 0) detected
+        S.send(a, fd, dfd); S.settle()                                   # refused
+        _reset(S, a, True); S.settle()
+        S.send(a, fd, dfd); S.settle()
+        _reset(S, a, True); S.settle()
+    elif k == 20:
+        # all three roles, three required players. Variant 0: the attacker succeeds, everybody finishes and is paid, the attacker
+        # asks for the reset; the Benign agent leaves and a new DEFENDER takes its place in the SAME episode and finishes: it is
+        # paid for an episode in which an attacker succeeded (Fail), whatever the successful attacker has asked for since.
+        # Variant 1: the attacker asks for a reset in the middle of its episode; the others' observations stay non-final and are
+        # answered at once until the attacker has really finished
+        cfg, draw = directed_config(rng, 3, 3)
+        A = cfg["coordinator"]["agents"]["Attacker"]
+        g0 = copy.deepcopy(nsgenv.EMPTY_PART)
+        g0["known_hosts"] = ["192.168.1.2"]
+        A["goal"] = dict(g0, description="goal", is_any_part_of_goal_random=False)
+        cfg["coordinator"]["agents"]["Defender"].pop("max_steps", None)
+        S = CR.Session(cfg, draw=draw)
+        a, dd, x = ("10.2.20.1", 1), ("10.2.20.2", 2), ("10.2.20.3", 3)
+        S.connect(a); S.connect(dd); S.connect(x); S.settle()
+        _join(S, a, "att", "Attacker"); _join(S, dd, "def", "Defender"); _join(S, x, "ben", "Benign"); S.settle()
+        win, dwin = game_msg("ScanNetwork", source_host=ip("192.168.2.2"), target_network={"ip": "192.168.1.0", "mask": 24})
+        lose, dlose = game_msg("ScanNetwork", source_host=ip("192.168.2.2"), target_network={"ip": "192.168.2.0", "mask": 24})
+        fd, dfd = game_msg("FindData", source_host=ip("192.168.2.2"), target_host=ip("192.168.2.2"))
+        if variant == 0:
+            for episode in range(2):
+                S.send(a, win, dwin); S.settle()                         # success: parked until the others finish
+                S.send(dd, fd, dfd); S.settle()
+                S.send(x, fd, dfd); S.settle()
+                _reset(S, a, False); S.settle()                          # the successful attacker asks for the next episode
+                _leave(S, x, "quit" if episode == 0 else "eof"); S.settle()       # a Benign agent whose episode has ended says QuitGame
+                x = ("10.2.20.%d" % (4 + episode), 4 + episode)
+                S.connect(x); S.settle()
+                _join(S, x, "late%d" % episode, "Defender" if episode == 0 else "Benign"); S.settle()
+                S.send(x, fd, dfd); S.settle()                           # ends at once: no attacker is playing
+                S.send(x, fd, dfd); S.settle()                           # refused: the same reason and reward
+                _reset(S, dd, True); _reset(S, x, False); S.settle()
+        else:
+            S.send(a, lose, dlose); S.settle()
+            _reset(S, a, False); S.settle()                              # mid-episode: its episode has not ended
+            S.send(dd, fd, dfd); S.settle()                              # non-final: answered at once
+            S.send(x, fd, dfd); S.settle()
+            S.send(dd, fd, dfd); S.settle()
+            _reset(S, dd, False); _reset(S, x, True); S.settle()         # consensus: the new episode starts for all three
+            S.send(a, win, dwin); S.settle()
+            S.send(dd, fd, dfd); S.send(x, fd, dfd); S.settle()
+            _reset(S, a, True); _reset(S, dd, False); _reset(S, x, False); S.settle()
+    elif k == 19:
         # blocks placed by ONE agent and learned by ANOTHER through FindData on a host it controls: the views held and sent
         # stay sets (they decode to themselves), and both agents - who now know blocks of the same host - can leave
         cfg, draw = directed_config(rng, 2, 12)
@@ -552,6 +664,10 @@ def directed(rng, k):
             _scan(S, a); S.settle(); _scan(S, b); S.settle()
         _leave(S, a, "quit" if variant == 0 else rng.choice(kinds)); S.settle()
         S.connect(c); S.settle()
+        if variant == 1:
+            # out of order on the new connection (in the twin: from the departed agent's address): refused, nothing remembered
+            _reset(S, c, False); S.settle()
+            _scan(S, c); S.settle()
         _join(S, c, "c", "Attacker"); S.settle()
         _scan(S, c); S.settle(); _scan(S, c); S.settle()                 # the newcomer's final observation carries its bonus
         _scan(S, c); S.settle()                                          # refused
@@ -559,6 +675,7 @@ def directed(rng, k):
         _scan(S, c); S.settle()
         _leave(S, b, rng.choice(kinds)); S.settle()
         S.connect(e); S.settle()
+        _reset(S, e, True); S.settle()                                   # a reset request before joining: refused
         _join(S, e, "e", rng.choice(["Attacker", "Defender"])); S.settle()
         _scan(S, c); S.settle()
     elif k == 11:
